@@ -185,10 +185,22 @@ class Session:
         m = getattr(self, "op_" + op.replace(".", "_"), None)
         if m is None:
             raise BadOp(op)
+        # handle numbers that were never allocated (an earlier creating op failed) are a harness matter
+        for key, pool in (("ts", self.tss), ("fs", self.fss), ("h", self.handles)):
+            if key in o and isinstance(o[key], int) and not (0 <= o[key] < len(pool)):
+                raise BadOp(op)
+        if "inputs" in o and any(not (0 <= i < len(self.tss)) for i in o["inputs"]):
+            raise BadOp(op)
         return m(o)
 
     def op_ts_new(self, o):
         self.tss.append(TypeSystem(add_document_annotation_type=o.get("doc", True)))
+        return len(self.tss) - 1
+
+    def op_ts_merge(self, o):
+        from cassis import merge_typesystems
+        ts = merge_typesystems(*[self.tss[i] for i in o["inputs"]])
+        self.tss.append(ts)
         return len(self.tss) - 1
 
     def op_ts_create_type(self, o):
@@ -244,6 +256,18 @@ class Session:
             return ts.is_primitive(ts.get_type(o["name"]))
         if k == "types":
             return [t.name for t in ts.get_types(o.get("built_in", False))]
+        if k == "dump":
+            d = {}
+            for t in ts._types.values():
+                d[t.name] = {
+                    "super": None if t.supertype is None else t.supertype.name,
+                    "children": sorted(c for c in t._children),
+                    "own": [self.feature_json(f) for f in t.features],
+                    "eff": sorted([[f.name, f.rangeType.name, None if f.elementType is None else f.elementType.name]
+                                   for f in t.all_features], key=lambda x: x[0]),
+                    "descr": t.description,
+                }
+            return d
         if k == "identity":
             # every Type object reachable through supertypes, children and feature domain/range/element
             # types is the one registered under its name
